@@ -100,3 +100,33 @@ ZOO += [
     ('C06-sim-body-sign', 'C06', 'sim.py', "velocity_b = util.mv_prod(mat_nb, trajectory[VEL_COLS], at=True) + error",
      "velocity_b = util.mv_prod(mat_nb, trajectory[VEL_COLS], at=True) - error"),
 ]
+ZOO += [
+    # ---- C14 sensor models
+    ('C14-sm-naming', 'C14', 'inertial_sensor.py', "                axis_out = XYZ_TO_INDEX[items[1][0]]\n                axis_in = XYZ_TO_INDEX[items[1][1]]\n                self.transform[axis_out, axis_in] += xi",
+     "                axis_out = XYZ_TO_INDEX[items[1][1]]\n                axis_in = XYZ_TO_INDEX[items[1][0]]\n                self.transform[axis_out, axis_in] += xi"),
+    ('C14-q-squared', 'C14', 'inertial_sensor.py', "q[n_noises] = bias_walk[axis]", "q[n_noises] = bias_walk[axis] ** 2"),
+    ('C14-rate-noise-dt', 'C14', 'inertial_sensor.py', "result += self.noise * dt**-0.5 * self.rng.randn(*readings.shape)",
+     "result += self.noise * dt**0.5 * self.rng.randn(*readings.shape)"),
+    ('C14-series-dt', 'C14', 'inertial_sensor.py', "        if isinstance(increments, pd.DataFrame):\n            dt = np.asarray(dt).reshape(-1, 1)\n",
+     "        if isinstance(increments, pd.DataFrame):\n            dt = np.asarray(dt).reshape(-1, 1)\n        else:\n            dt = 1.0 * (dt > 0) * 0.01\n"),
+    ('C14-walk-G', 'C14', 'inertial_sensor.py', "                    G[n_states, n_noises] = 1\n", "                    G[n_noises, n_noises] = 1\n"),
+    ('C14-df-naming', 'C14', 'inertial_sensor.py', "                    self.data_frame[(f\"sm_{INDEX_TO_XYZ[axis_out]}\"\n                                    f\"{INDEX_TO_XYZ[axis_in]}\")] = actual - nominal",
+     "                    self.data_frame[(f\"sm_{INDEX_TO_XYZ[axis_in]}\"\n                                    f\"{INDEX_TO_XYZ[axis_out]}\")] = actual - nominal"),
+    ('C14-get-est-diag', 'C14', 'inertial_sensor.py', "(1 if axis_out == axis_in else 0))", "(1 if axis_out == axis_in and axis_out < 2 else 0))"),
+    ('C14-noise-order', 'C14', 'inertial_sensor.py', "                J[axis, n_output_noises] = 1\n                v[n_output_noises] = noise[axis]",
+     "                J[axis, n_output_noises] = 1\n                v[n_output_noises] = noise[2 - axis] if np.all(noise > 0) and len(set(noise.tolist())) > 1 else noise[axis]"),
+    ('C14-output-matrix-axes', 'C14', 'inertial_sensor.py', "            H[output_axes, states] = readings[input_axes]", "            H[output_axes, states] = readings[output_axes]"),
+    ('C14-walk-sqrt', 'C14', 'inertial_sensor.py', "self.rng.randn(*readings.shape) * dt ** 0.5, axis=0)", "self.rng.randn(*readings.shape) * dt, axis=0)"),
+]
+ZOO += [
+    # ---- C15 coning / sculling
+    ('C15-D7-revert', 'C15', 'strapdown.py', "        k = 2 * dt ** 2 / (dt_prev * (dt_prev + dt)) / 12\n", "        k = 1 / 12\n"),
+    ('C15-coning-6', 'C15', 'strapdown.py', "coning = np.cross(a_gyro, b_gyro) * dt ** 2 / 12", "coning = np.cross(a_gyro, b_gyro) * dt ** 2 / 6"),
+    ('C15-scull-sign', 'C15', 'strapdown.py', "        sculling = (np.cross(a_gyro, b_accel) +\n                    np.cross(a_accel, b_gyro)) * dt ** 2 / 12",
+     "        sculling = (np.cross(a_gyro, b_accel) -\n                    np.cross(a_accel, b_gyro)) * dt ** 2 / 12"),
+    ('C15-a-late', 'C15', 'strapdown.py', "        a_accel = accel[:-1]\n", "        a_accel = accel[1:]\n"),
+    ('C15-dt-power', 'C15', 'strapdown.py', "                    np.cross(a_accel, b_gyro)) * dt ** 2 / 12", "                    np.cross(a_accel, b_gyro)) * dt / 12"),
+    ('C15-incr-scull-order', 'C15', 'strapdown.py', "        sculling = k * (np.cross(gyro[:-1], accel[1:]) +\n                        np.cross(accel[:-1], gyro[1:]))",
+     "        sculling = k * (np.cross(gyro[:-1], accel[1:]) +\n                        np.cross(gyro[1:], accel[:-1]))"),
+    ('C15-stamp-early', 'C15', 'strapdown.py', "index=imu.index[1:],", "index=imu.index[:-1],"),
+]
